@@ -83,11 +83,11 @@ FsmValid(b)     == b \in ValidBodies \cup {"R"}
 (* strconv.ParseUint(header, 0, 64): -1 = error. "curHex" 0x.., "curOct"    *)
 (* 0.. (base 0!) denote the current revision (revisions stay below 8).      *)
 HdrVal(kind, rev) ==
-    CASE kind \in {"cur", "curHex", "curOct"} -> rev
+    CASE kind \in {"cur", "curHex", "curOct", "lead"} -> rev    \* "lead": leading blank, trimmed by net/http
       [] kind = "stale"  -> rev - 1           \* "-1" for rev 0: a syntax error
       [] kind = "future" -> rev + 1
       [] kind = "far"    -> rev + 7
-      [] OTHER -> -1                          \* missing garbage neg float space plus huge
+      [] OTHER -> -1                          \* missing garbage neg float space (inner blank) plus huge
 
 (* ------------------------ the replicated state -------------------------- *)
 NoSess == [st |-> "none", oper |-> FALSE, addr |-> "", chans |-> {}]
@@ -188,21 +188,22 @@ PostConfig(kind, b) ==
 
 InjectRev(k) == CASE k = "same" -> live.rev [] k = "zero" -> 0 [] OTHER -> live.rev + 3
 
-Inject(k, b) ==
-    /\ cnt.inject < MaxInject
-    /\ b # "R"
-    /\ Commit(ConfigEntry(InjectRev(k), b))
+InjectV(rev, b) ==
+    /\ Commit(ConfigEntry(rev, b))
     /\ cnt' = [cnt EXCEPT !.inject = @ + 1]
     /\ UNCHANGED home
-    /\ Record([a |-> "Inject", rev |-> InjectRev(k), body |-> b, res |-> IF FsmValid(b) THEN "ok" ELSE "skipped",
+    /\ Record([a |-> "Inject", rev |-> rev, body |-> b, res |-> IF FsmValid(b) THEN "ok" ELSE "skipped",
                prerev |-> live.rev])
 
-Create(u) ==
-    /\ live.sess[u].st = "none"
+Inject(k, b) == cnt.inject < MaxInject /\ b # "R" /\ InjectV(InjectRev(k), b)
+
+CreateV(u) ==
     /\ Commit([t |-> "create", s |-> u])
     /\ UNCHANGED <<cnt, home>>
     /\ Record([a |-> "Create", s |-> u,
                res |-> IF live.cfg.maxS > 0 /\ Cardinality(Alive(live)) >= live.cfg.maxS THEN "limit" ELSE "ok"])
+
+Create(u) == live.sess[u].st = "none" /\ CreateV(u)
 
 MsgResult(S, e, T) ==
     IF T.sess[e.s].st = "gone" THEN "banned"
@@ -227,33 +228,39 @@ Join(u, ch)   == live.sess[u].st = "in" /\ ch \notin live.sess[u].chans /\ Msg(u
 Gline(u, t)   == live.sess[u].st = "in" /\ u # t /\ live.sess[t].st # "none" /\ Msg(u, "gline", t, home[u])
 Ping(u, via)  == live.sess[u].st = "in" /\ Msg(u, "ping", "", via)
 
-Delete(u) ==
-    /\ live.sess[u].st \in LiveSt
+DeleteV(u) ==
     /\ Commit([t |-> "delete", s |-> u])
     /\ UNCHANGED <<cnt, home>>
     /\ Record([a |-> "Delete", s |-> u, res |-> "ok"])
 
+Delete(u) == live.sess[u].st \in LiveSt /\ DeleteV(u)
+
 (* FSM.Snapshot. allButLast: every stored entry but the newest is folded   *)
 (* into the base and the base is serialised; none: nothing is old enough.  *)
 (* REPAIRED (F18): folding never touches the live FSM's expiration.         *)
-Snapshot(mode, via) ==
-    /\ cnt.snap < MaxSnap
+SnapshotV(mode, via) ==
     /\ fold' = IF mode = "allButLast" THEN Marshal(fold) ELSE fold
     /\ UNCHANGED <<live, full, lastE, fsmExp, home>>
     /\ cnt' = [cnt EXCEPT !.snap = @ + 1]
     /\ Record([a |-> "Snapshot", mode |-> mode, via |-> via, res |-> "ok"])
 
+Snapshot(mode, via) == cnt.snap < MaxSnap /\ SnapshotV(mode, via)
+
 (* New process on the same raft directory: FSM.Restore + replay of the     *)
 (* tail. `observe`: two further replicas are built from a copy of the      *)
 (* directory first (log replay / snapshot restore) and looked at.          *)
 (* REPAIRED (F3): Restore re-establishes the FSM's expiration.              *)
-Restart(observe) ==
-    /\ cnt.restart < MaxRestart
+RestartV(observe) ==
     /\ live' = Restored
     /\ fsmExp' = Restored.cfg.exp
     /\ UNCHANGED <<full, fold, lastE, home>>
     /\ cnt' = [cnt EXCEPT !.restart = @ + 1]
     /\ Record([a |-> "Restart", observe |-> observe, res |-> "ok"])
+
+Restart(observe) == cnt.restart < MaxRestart /\ RestartV(observe)
+
+Cnt0 == [rej |-> 0, snap |-> 0, restart |-> 0, inject |-> 0, cfg |-> 0]
+Prelude == [t |-> "config", rev |-> 1, body |-> "P", valid |-> TRUE, proj |-> Proj("P")]
 
 Init ==
     LET e == [t |-> "config", rev |-> 1, body |-> "P", valid |-> TRUE, proj |-> Proj("P")] IN
@@ -266,7 +273,7 @@ Init ==
     /\ last = None
     /\ hist = <<>>
     /\ n = 0
-    /\ cnt = [rej |-> 0, snap |-> 0, restart |-> 0, inject |-> 0, cfg |-> 0]
+    /\ cnt = Cnt0
 
 Next ==
     /\ n < MaxSteps
@@ -324,6 +331,12 @@ TypeOK ==
 GlineIsConfig ==
     (last # None /\ last.a = "Msg" /\ last.cmd = "gline" /\ last.res = "ok")
         => \E ad \in live.cfg.banned : ad \in full.cfg.banned /\ ad \in Restored.cfg.banned
+
+(* the body table, for the cross-check against the TOML texts of the check *)
+ExportTable ==
+    /\ TLCGet("distinct") > 0
+    /\ JsonSerialize("Config_bodies.json",
+          [valid |-> [b \in ValidBodies |-> Proj(b)], invalid |-> InvalidBodies])
 
 (* behaviour export: complete behaviours are printed for the replay *)
 ExportBehaviours == (RecordHist /\ n = MaxSteps) => PrintT(<<"BEHAVIOUR", ToJson(hist)>>)
